@@ -118,7 +118,9 @@ class ExprMixin:
 
     def ex_Dict(self, e, st, fx):
         if len(e.keys) == 0:
-            d = SDict(sym=(z3.K(Str, z3.BoolVal(False)), z3.K(Str, z3.RealVal(0)), z3.K(Str, z3.BoolVal(False))))
+            # empty dict {key: Optional[float]} ; the key sort (Node here: story elements) is fixed by the dict's use
+            KS = Node
+            d = SDict(sym=(z3.K(KS, z3.BoolVal(False)), z3.K(KS, z3.RealVal(0)), z3.K(KS, z3.BoolVal(False))))
             return [(st, d)]
         out = []
         for s, ks in self.eval_seq(e.keys, st, fx):
@@ -272,7 +274,13 @@ class ExprMixin:
                 return [(st, r)]
             if isinstance(a, SOpaque) and a.kind == 'datetime' and isinstance(b, SOpaque) and b.kind == 'timedelta':
                 self.assumed_used.add('A-DT')
-                return [(st, SOpaque(a.t + b.t if sign == 1 else a.t - b.t, 'datetime'))]
+                out = []
+                for s2, bad in self.branch(st, getattr(a, 'isnone', z3.BoolVal(False)), 'noneop'):
+                    if bad:
+                        out.append(self.raise_(s2, 'TypeError', origin='None + timedelta L%d' % e.lineno))
+                    else:
+                        out.append((s2, SOpaque(a.t + b.t if sign == 1 else a.t - b.t, 'datetime')))
+                return out
             if isinstance(a, SObj) and isinstance(op, ast.Add):
                 add = a.cls.lookup('__add__')
                 if add is not None:
@@ -729,7 +737,7 @@ class ExprMixin:
                 sres.assume(z3.ForAll([j, j2], z3.Implies(z3.And(0 <= j, j < j2, j2 < lenF), src(j) < src(j2)),
                                       patterns=[z3.MultiPattern(src(j), src(j2))]))
                 lst = SList(lenF, lambda kk, elem_at=elem_at, src=src: elem_at(src(kk)), desc='filtered comp over ' + seq.desc)
-                lst.base, lst.src, lst.dst, lst.incl = seq, src, dst, incl
+                lst.base, lst.src, lst.dst, lst.incl, lst.elem_at_base = seq, src, dst, incl, elem_at
             if kind == 'set':
                 probe = lst.elem(z3.Int('probe'))
                 if not isinstance(probe, SStr):
@@ -780,7 +788,10 @@ class ExprMixin:
                     setattr(r, a, getattr(v, a))
             return r
         if isinstance(v, SDict) and v.sym is not None:
-            return SDict(sym=tuple(sub(a) for a in v.sym))
+            r = SDict(sym=tuple(sub(a) for a in v.sym))
+            if hasattr(v, 'prefix'):
+                r.prefix = v.prefix
+            return r
         if isinstance(v, (SCls, SFunc, SModule)):
             return v
         if isinstance(v, SSymCls):
